@@ -64,6 +64,7 @@ def Cst.lexM : Cst → List Lex
   | .paren its _ => .tok ['('] :: its.lexM ++ [.tok [')']]
   | .app f cs _ a => f.lexM ++ ncm cs ++ a.lexM
   | .kw w c1 _ h c2 _ c3 _ b => .tok (kwText w) :: ncm c1 ++ h.lexM ++ ncm c2 ++ .tok [';'] :: ncm c3 ++ b.lexM
+  | .sel e c1 _ _ attrs => e.lexM ++ ncm c1 ++ attrLex attrs
 def Items.lexM : Items → List Lex
   | .nil => []
   | .cmt _ t rest => normCmt t :: rest.lexM
@@ -217,6 +218,7 @@ theorem ok_setBefore {e : Expr} (h : e.ok) {b : List Trivia} (hb : TrivOk b) : (
   | app n x g fa b' a => exact ⟨h.1, h.2.1, h.2.2.1, hb, h.2.2.2.2⟩
   | wth e bd c g s b' a => exact ⟨h.1, h.2.1, h.2.2.1, h.2.2.2.1, hb, h.2.2.2.2.2⟩
   | asrt c bd x y b' a => exact ⟨h.1, h.2.1, h.2.2.1, h.2.2.2.1, hb, h.2.2.2.2.2⟩
+  | sel e ats g ab b' a => exact ⟨h.1, h.2.1, h.2.2.1, h.2.2.2.1, hb, h.2.2.2.2.2⟩
 
 theorem ok_setAfter {e : Expr} (h : e.ok) {a : List Trivia} (ha : TrivOk a) : (e.setAfter a).ok := by
   cases e with
@@ -228,6 +230,7 @@ theorem ok_setAfter {e : Expr} (h : e.ok) {a : List Trivia} (ha : TrivOk a) : (e
   | app n x g fa b a' => exact ⟨h.1, h.2.1, h.2.2.1, h.2.2.2.1, ha⟩
   | wth e bd c g s b a' => exact ⟨h.1, h.2.1, h.2.2.1, h.2.2.2.1, h.2.2.2.2.1, ha⟩
   | asrt c bd x y b a' => exact ⟨h.1, h.2.1, h.2.2.1, h.2.2.2.1, h.2.2.2.2.1, ha⟩
+  | sel e ats g ab b a' => exact ⟨h.1, h.2.1, h.2.2.1, h.2.2.2.1, h.2.2.2.2.1, ha⟩
 
 theorem ok_addAfter {e : Expr} (h : e.ok) {a : List Trivia} (ha : TrivOk a) : (e.addAfter a).ok :=
   ok_setAfter h (trivOk_append (ok_after h) ha)
@@ -253,6 +256,7 @@ theorem lexOut_setBefore (e : Expr) (hb : e.before = []) (b : List Trivia) (na :
   | app n x g fa b' a => simp only [Expr.before] at hb; subst hb; simp [Expr.setBefore, Expr.lexOut]
   | wth e bd c g s b' a => simp only [Expr.before] at hb; subst hb; simp [Expr.setBefore, Expr.lexOut]
   | asrt c bd x y b' a => simp only [Expr.before] at hb; subst hb; simp [Expr.setBefore, Expr.lexOut]
+  | sel e ats g ab b' a => simp only [Expr.before] at hb; subst hb; simp [Expr.setBefore, Expr.lexOut]
 
 theorem modifyLast_isEmpty' {α : Type} (f : α → α) : ∀ (l : List α), (modifyLast f l).isEmpty = l.isEmpty
   | [] => rfl
@@ -297,6 +301,7 @@ theorem lexOut_addAfter (e : Expr) (hna : e.isAsrtE = false) (ts : List Trivia) 
     (e.addAfter ts).lexOut false = e.lexOut false ++ cm ts := by
   cases e with
   | wth e bd c g s b a => simp [Expr.addAfter, Expr.setAfter, Expr.after, Expr.lexOut]
+  | sel e ats g ab b a => simp [Expr.addAfter, Expr.setAfter, Expr.after, Expr.lexOut]
   | asrt c bd x y b a => cases hna
   | leaf k t b a => simp [Expr.addAfter, Expr.setAfter, Expr.after, Expr.lexOut]
   | list v m inn b a => simp [Expr.addAfter, Expr.setAfter, Expr.after, Expr.lexOut]
@@ -315,6 +320,7 @@ theorem lexOut_addAfter_true (e : Expr) (ts : List Trivia) : (e.addAfter ts).lex
   | app n x g fa b a => simp [Expr.addAfter, Expr.setAfter, Expr.after, Expr.lexOut]
   | wth e bd c g s b a => simp [Expr.addAfter, Expr.setAfter, Expr.after, Expr.lexOut]
   | asrt c bd x y b a => simp [Expr.addAfter, Expr.setAfter, Expr.after, Expr.lexOut]
+  | sel e ats g ab b a => simp [Expr.addAfter, Expr.setAfter, Expr.after, Expr.lexOut]
 
 theorem lexOut_true_of_after_nil (e : Expr) (h : e.after = []) : e.lexOut true = e.lexOut false := by
   cases e with
@@ -326,6 +332,7 @@ theorem lexOut_true_of_after_nil (e : Expr) (h : e.after = []) : e.lexOut true =
   | app n x g fa b a => simp only [Expr.after] at h; subst h; simp [Expr.lexOut]
   | wth e bd c g s b a => simp only [Expr.after] at h; subst h; simp [Expr.lexOut]
   | asrt c bd x y b a => simp only [Expr.after] at h; subst h; simp [Expr.lexOut]
+  | sel e ats g ab b a => simp only [Expr.after] at h; subst h; simp [Expr.lexOut]
 
 theorem modifyLast_isEmpty {α : Type} (f : α → α) : ∀ (l : List α), (modifyLast f l).isEmpty = l.isEmpty
   | [] => rfl
@@ -371,6 +378,7 @@ theorem lexOut_addAfter_proj (strict : Bool) (e : Expr) (ts : List Trivia)
     | paren => cases hA
     | app => cases hA
     | wth => cases hA
+    | sel => cases hA
 
 theorem modifyLast_addAfter (strict : Bool) : ∀ (items : List Expr) (ts : List Trivia), items ≠ [] →
     (strict = true → lastAsrt items = true → cm ts = []) →
@@ -982,6 +990,22 @@ theorem cst_parse_spec (strict : Bool) : (c : Cst) → c.wf = true → (strict =
       simp only [Expr.lexOut, Cst.lexM, cm_nil, List.nil_append, List.append_nil, if_false, Bool.false_eq_true, ncm,
         List.map_nil, kwText, hb'.2]
       simp only [proj_append, hhl, hbl, kwAssert]
+  | .sel e c1 g1 gd attrs, hwf, hord => by
+    simp only [Cst.wf, Bool.and_eq_true, List.isEmpty_iff, Bool.not_eq_true', List.isEmpty_eq_false_iff] at hwf
+    obtain ⟨⟨⟨⟨⟨hew, hc1⟩, _⟩, _⟩, hne⟩, hall⟩ := hwf
+    subst hc1
+    obtain ⟨ee, hpe, heok, _, _, hel, _⟩ := cst_parse_spec strict e hew (fun hs => by simpa [Cst.orderOk] using hord hs)
+    have hsol : ∀ x ∈ attrs, solidT x := by
+      intro x hx
+      have := (List.all_eq_true.mp hall) x hx
+      simp only [attrSegOk, Bool.and_eq_true, Bool.not_eq_true', List.isEmpty_eq_false_iff] at this
+      refine ⟨this.1.1.1, ?_⟩
+      have hl := getLast?_ne_nl_of_no_nl _ this.1.1.2
+      simp [endsWithNL, hl]
+    refine ⟨.sel ee attrs g1 (collectTrivia [] g1) [] [], by simp only [Cst.parse, hpe],
+      ⟨heok, hne, hsol, by simp [collectTrivia, collectGo], trivOk_nil, trivOk_nil⟩, rfl, rfl, ?_, rfl⟩
+    simp only [Expr.lexOut, Cst.lexM, cm_nil, List.nil_append, List.append_nil, if_false, Bool.false_eq_true, ncm, List.map_nil]
+    simp only [proj_append, hel]
 theorem items_parse_spec (strict : Bool) : (its : Items) → ∀ (m : Mode) (cg : Text) (st : SeqSt) (pend : Bool),
     its.wf m cg = true → StOk st →
     (strict = true → its.orderOk m st.prev pend (!st.items.isEmpty) = true ∧ (pend = false → cm st.before = []) ∧
@@ -1203,6 +1227,8 @@ theorem cst_toks_lexM : (c : Cst) → toksL c.lexM = toksL c.lex
       show (Lex.tok (kwText w) :: lexGC c1 ++ h.lex ++ lexGC c2 ++ Lex.tok [';'] :: lexGC c3 ++ b.lex) =
         [Lex.tok (kwText w)] ++ lexGC c1 ++ h.lex ++ lexGC c2 ++ [Lex.tok [';']] ++ lexGC c3 ++ b.lex from by simp]
     simp only [toksL_append, toksL_ncm, toksL_lexGC, cst_toks_lexM h, cst_toks_lexM b]
+  | .sel e c1 _ _ attrs => by
+    simp only [Cst.lexM, Cst.lex, toksL_append, toksL_ncm, toksL_lexGC, cst_toks_lexM e]
 theorem items_toks_lexM : (its : Items) → toksL its.lexM = toksL its.lex
   | .nil => rfl
   | .cmt _ t rest => by
